@@ -83,7 +83,10 @@ static double spec_single_energy(int Z, int line)
   if (line == KO_LINE) line = KO1_LINE;  /* C10: KO/KP energies are those of their first member line */
   if (line == KP_LINE) line = KP1_LINE;
   if (!Z_OK(Z) || !SLOT_OK(line)) return 0.0;
-  return LE_CELL(Z, line) > 0.0 ? LE_CELL(Z, line) : 0.0;
+  /* "a positive record" is phrased as !(cell <= 0) so that the solver sees the same comparison as in the code
+   * (equivalent under TABLES_WF: cells are not NaN) */
+  if (LE_CELL(Z, line) <= 0.0) return 0.0;
+  return LE_CELL(Z, line);
 }
 
 /* two-member group, from the statement: rate-weighted mean of the members that have an energy; without rates
@@ -91,9 +94,12 @@ static double spec_single_energy(int Z, int line)
 static double spec_two_member(int Z, int m1, int m2)
 {
   double e1 = spec_single_energy(Z, m1), e2 = spec_single_energy(Z, m2);
-  double r1 = (e1 > 0.0 && LEAFOK_RadRate(Z, m1)) ? LEAF_RadRate(Z, m1) : 0.0;
-  double r2 = (e2 > 0.0 && LEAFOK_RadRate(Z, m2)) ? LEAF_RadRate(Z, m2) : 0.0;
-  double w = e1 * r1 + e2 * r2;
+  /* LEAF_f is the public value: 0 when the call fails */
+  double r1 = LEAF_RadRate(Z, m1), r2 = LEAF_RadRate(Z, m2);
+  double w;
+  if (e1 <= 0.0) r1 = 0.0;   /* a member without an energy does not take part */
+  if (e2 <= 0.0) r2 = 0.0;
+  w = e1 * r1 + e2 * r2;
   if (w > 0.0) return w / (r1 + r2);
   if (e1 > 0.0 && e2 > 0.0) return (e1 + e2) / 2.0;
   if (e1 > 0.0) return e1;
@@ -137,7 +143,7 @@ LEMMA(lemma_LineEnergy)
     int n = (line == KA_LINE) ? SPEC_NKA : SPEC_NKB;
     for (i = 0; i < n; i++) {
       int m = (line == KA_LINE) ? SPEC_KA[i] : SPEC_KB[i];
-      if (LE_CELL(Z, m) > 0.0) { den += RR_CELL(Z, m); num += LE_CELL(Z, m) * RR_CELL(Z, m); }
+      if (!(LE_CELL(Z, m) <= 0.0)) { den += RR_CELL(Z, m); num += LE_CELL(Z, m) * RR_CELL(Z, m); }
     }
     if (line == KA_LINE) VCANARY("LineEnergy KA"); else VCANARY("LineEnergy KB");
     if (den > 0.0) VASSERT(SAME(r, num / den) && NO_ERROR(error), "LineEnergy(KA/KB) = rate-weighted mean of exactly its members that have an energy");
@@ -147,9 +153,11 @@ LEMMA(lemma_LineEnergy)
     int m1 = (line == LA_LINE) ? SPEC_LA[1] : SPEC_DOUBLET[d].m1;
     int m2 = (line == LA_LINE) ? SPEC_LA[0] : SPEC_DOUBLET[d].m2;
     double e1 = spec_single_energy(Z, m1), e2 = spec_single_energy(Z, m2);
-    double r1 = (e1 > 0.0 && LEAFOK_RadRate(Z, m1)) ? LEAF_RadRate(Z, m1) : 0.0;
-    double r2 = (e2 > 0.0 && LEAFOK_RadRate(Z, m2)) ? LEAF_RadRate(Z, m2) : 0.0;
-    double w = e1 * r1 + e2 * r2;
+    double r1 = LEAF_RadRate(Z, m1), r2 = LEAF_RadRate(Z, m2);
+    double w;
+    if (e1 <= 0.0) r1 = 0.0;
+    if (e2 <= 0.0) r2 = 0.0;
+    w = e1 * r1 + e2 * r2;
     VCANARY("LineEnergy two-member group");
     if (w > 0.0) VASSERT(SAME(r, w / (r1 + r2)) && NO_ERROR(error), "LineEnergy(doublet) = rate-weighted mean of exactly its two members");
     else if (e1 > 0.0 && e2 > 0.0) VASSERT(SAME(r, (e1 + e2) / 2.0) && NO_ERROR(error), "LineEnergy(doublet): no rates -> plain mean of the member energies");
@@ -162,9 +170,9 @@ LEMMA(lemma_LineEnergy)
     for (i = 0; i < SPEC_NLB; i++) {
       int m = SPEC_LB[i].line, sh = SPEC_LB[i].shell;
       double e = spec_member_energy(Z, m);
-      if (e > 0.0) {
-        double edge = LEAFOK_EdgeEnergy(Z, sh) ? LEAF_EdgeEnergy(Z, sh) : 0.0;
-        double w = LEAFOK_CS_FluorLine(Z, m, edge + 0.1) ? LEAF_CS_FluorLine(Z, m, edge + 0.1) : 0.0;
+      if (!(e <= 0.0)) {
+        double edge = LEAF_EdgeEnergy(Z, sh);
+        double w = LEAF_CS_FluorLine(Z, m, edge + 0.1);
         den += w;
         num += e * w;
       }
